@@ -23,7 +23,7 @@ MANIFEST = {
             "TLC runs the function before and after the REAL pass in the TLA+ reference semantics of the IR (IR.tla) from 6 initial "
             "states and checks in every state of the product machine (EquivMonitor.tla) that the observation sequences (memory reads/"
             "writes, calls, indirect jumps, returns, dead ends with physical registers and memory) are prefixes of each other; "
-            "bounded: functions of <= 11 blocks, 64 block steps per copy, generated input class stated in the evidence.",
+            "bounded: functions of <= 11 blocks, 32 block steps per copy, generated input class stated in the evidence.",
     "note": "Trusted: TLC + CommunityModules Json/IOUtils, the IR projection harness/src/irenc.rs (canary-checked every run), IR.tla "
             "as transcription of the IR semantics (self-checked by MC_IR against BV.tla/BVInt.tla and by MC_Equiv on hand-written pairs).",
     "technique": "TLA+ product machine over recorded transformer outputs, model-checked by TLC (translation validation)",
@@ -149,7 +149,7 @@ def check(seed, tier):
                 "normalize_optimize applied in pipeline order to a generated function after normalize_basic, plus the whole normalize_optimize; "
                 "pairs the pass left unchanged are skipped (counted in unchanged_pairs_skipped), so every counted pair is non-trivial "
                 "(the pass rewrote the function); distinct = distinct hashes of the pair; disagreements_checked = number of "
-                "(pair, initial state) behaviours TLC explored completely (up to the fuel of 64 block steps per copy)",
+                "(pair, initial state) behaviours TLC explored completely (up to the fuel of 32 block steps per copy)",
         "samples": meta["samples"][:2], "mc_runs": rep.cov.get("mc_runs"), "trusted_base": TRUSTED,
     }, ["input class (generator): well-sized integer expressions, no float/Unknown; temporaries defined before use within their block and "
         "not live across calls; 1-byte registers are flags holding 0/1 at entry and after calls and are only assigned boolean expressions; "
@@ -158,7 +158,7 @@ def check(seed, tier):
         "reference semantics (IR.tla): calls are observed with all physical registers and written memory, then havoc every physical "
         "register except SP and the 16 bytes around SP; division by zero does not trap; IntSBorrow etc. are BV.tla's (correct) operations",
         "an indirect jump continues only at a known indirect target whose address equals the runtime value, otherwise the behaviour ends",
-        "bounded: <= 11 blocks per function, 64 block steps per copy (loops are cut there), 6 initial states per pair; termination "
+        "bounded: <= 11 blocks per function, 32 block steps per copy (loops are cut there), 6 initial states per pair; termination "
         "differences without a differing observation are not observable"])
 
 
